@@ -683,7 +683,12 @@ def check(case, rec):
             text = t.to_json(gby, **dkw)
             with open(base, "w", encoding="utf8") as f:
                 f.write(text)
-            doc0 = json.loads(text)
+            try:
+                doc0 = json.loads(text)
+            except ValueError as e:
+                raise Violation("library-output-not-valid", "to_json wrote "
+                                "text that is not JSON (%s): %r" %
+                                (e, text[:400]))
         else:
             import h5py
             with h5py.File(base, "w") as f:
